@@ -61,6 +61,7 @@ def main(argv) -> int:
         res["observations"]["warm-up-raised:" + warm_failed[:120]] = 1
     digs, sigs, ntdigs = [], [], []
     minimised_classes = {}
+    wall_hits = 0
     det_n = int(os.environ.get("VERIF_DET_N", "48"))
     i = stripe
     first = i
@@ -107,7 +108,12 @@ def main(argv) -> int:
                 n_min = minimised_classes.get(out.violation, 0)
                 rec = {"run": i, "class": out.violation, "detail": out.detail, "info": out.info}
                 sc_orig, dig_orig = json.loads(jdump(sc)), out.digest
-                if n_min < getattr(mod, "SHRINK_PER_CLASS", 4) and sum(minimised_classes.values()) < getattr(mod, "SHRINK_TOTAL", 24):
+                if (out.info or {}).get("wall"):
+                    # interrupted by the wall-clock bound: not minimised (every attempt would wait for the bound
+                    # again), no event digest (where the interrupt lands is not reproducible); the worker stops after two
+                    wall_hits += 1
+                    rec.update({"scenario": sc_orig, "digest": out.digest, "shrink_execs": 0, "no_digest": True})
+                elif n_min < getattr(mod, "SHRINK_PER_CLASS", 4) and sum(minimised_classes.values()) < getattr(mod, "SHRINK_TOTAL", 24):
                     minimised_classes[out.violation] = n_min + 1
 
                     def still_unknown(o, _cls=out.violation):
@@ -132,6 +138,10 @@ def main(argv) -> int:
                 if len(res["violations"]) < 40:
                     res["violations"].append(rec)
                 res["violation_count"] = res.get("violation_count", 0) + 1
+                if wall_hits >= 2:
+                    res["observations"]["stopped-after-two-wall-clock-livelocks"] = 1
+                    i += nstripes
+                    break
         i += nstripes
     res["indices"] = [first, i]
     res["wall_s"] = time.time() - t0
